@@ -2,6 +2,7 @@ package engines
 
 import (
 	"fmt"
+	"runtime"
 	"strings"
 	"sync"
 
@@ -27,6 +28,8 @@ type raceTask struct {
 	foreign []string
 	done    bool
 	slice   int // remaining ticks before the next scheduling point
+	gid     uint64 // id of the task's goroutine (sync-point hooks may also be called by goroutines that are not tasks)
+	held    int    // locks of the instrumented goja tree currently held by the task
 }
 
 type raceSched struct {
@@ -38,9 +41,14 @@ type raceSched struct {
 	switches int
 	trace    []uint16 // (task, ticks) pairs actually realised
 	ticks    int64
+	syncPts  int64 // lock acquisitions of goja code reached by tasks (instrumented build only)
+	syncSw   int64 // ... at which the schedule switched to another goroutine
 }
 
 var raceCur *raceSched // the scheduler of the run in progress (one run at a time per process)
+
+//go:norace
+func (t *raceTask) setGID(id uint64) { t.gid = id }
 
 //go:norace
 func (s *raceSched) nextDec() int {
@@ -111,6 +119,57 @@ func raceTick(r *goja.Runtime) {
 	if t.slice <= 0 {
 		s.yield(t, false)
 	}
+}
+
+// raceSyncHook is installed as verifyield.Hook in the instrumented build (tag verifyield, see cmd/lockyield): every lock
+// acquisition in goja code is a scheduling point of its own, so that the tape can also interleave goroutines between two
+// critical sections of one operation. A task that holds a lock is never descheduled there (the task that would run next
+// might block on that lock for real, which the scheduler could not see).
+//
+//go:norace
+func raceSyncHook(kind int) {
+	s := raceCur
+	if s == nil {
+		return
+	}
+	t := s.tasks[s.cur]
+	if t.gid == 0 || t.gid != curGoroutineID() {
+		return // e.g. a cleanup goroutine of the Go runtime
+	}
+	switch kind {
+	case 1:
+		t.held++
+	case 2:
+		if t.held > 0 {
+			t.held--
+		}
+	case 0:
+		s.syncPts++
+		if t.held == 0 && s.nextDec()%2 == 0 {
+			before := s.switches
+			s.yield(t, false)
+			if s.switches != before {
+				s.syncSw++
+			}
+		}
+	}
+}
+
+// syncPointsBuilt is set by the instrumented build.
+var syncPointsBuilt bool
+
+func curGoroutineID() uint64 {
+	var buf [40]byte
+	n := runtime.Stack(buf[:], false)
+	// "goroutine 123 [running]:..."
+	var id uint64
+	for _, c := range buf[len("goroutine "):n] {
+		if c < '0' || c > '9' {
+			break
+		}
+		id = id*10 + uint64(c-'0')
+	}
+	return id
 }
 
 // ---- workload ----------------------------------------------------------------------------------------------------
@@ -248,7 +307,17 @@ func genRaceProgram(W *core.Track, nshared int) string {
 		case 5:
 			fmt.Fprintf(&sb, "{ class K%d { #p = 1; static #c = 0; static { K%d.#c = 5; } #m(){ return this.#p + K%d.#c; } get v(){ return this.#m(); } static has(o){ return #p in o; } } out.push(new K%d().v, K%d.has(new K%d()), K%d.has({})); }\n", i, i, i, i, i, i, i)
 		case 6:
-			fmt.Fprintf(&sb, "{ function dyn%d(a){ eval('var q%d = a + 1'); arguments[0] = 9; with ({w: 2}) { return q%d + a + w; } } out.push(dyn%d(1)%s); }\n", i, i, i, i, []string{"", fmt.Sprintf(", dyn%d(2)", i)}[W.Draw(2)])
+			again := []string{"", fmt.Sprintf(", dyn%d(2)", i)}[W.Draw(2)]
+			switch W.Draw(3) {
+			case 0:
+				fmt.Fprintf(&sb, "{ function dyn%d(a){ eval('var q%d = a + 1'); arguments[0] = 9; with ({w: 2}) { return q%d + a + w; } } out.push(dyn%d(1)%s); }\n", i, i, i, i, again)
+			case 1:
+				// non-simple parameter list: the body has a var scope of its own, which the sloppy direct eval extends (the
+				// compiled scope description it starts from belongs to the Program and is shared by every activation)
+				fmt.Fprintf(&sb, "{ function dyn%d(a = 1, ...rest){ var own = 2; eval('var q%d = a + own; function h%d(){ return q%d; }'); return typeof q%d + ':' + q%d + ':' + h%d() + ':' + rest.length + typeof nosuch%d; } out.push(dyn%d(1)%s); }\n", i, i, i, i, i, i, i, i, i, again)
+			default:
+				fmt.Fprintf(&sb, "{ function dyn%d({a, b = 3}, [c] = [4]){ let own = a + b; { eval('var q%d = own + c'); } return (function(){ return eval('q%d + own'); })(); } out.push(dyn%d({a: 1})%s); }\n", i, i, i, i, strings.Replace(again, "(2)", "({a: 2, b: 0}, [1])", 1))
+			}
 		case 7:
 			fmt.Fprintf(&sb, "out.push(1 + 2 * 3, 'a' + 'b' + 1, typeof 1, -(-0) === 0, 2 ** 10, 7 %% 3, 1 / 3 > 0.33, [1, 2, 3].map(function(x){ return x * 2; }).join());\n")
 		case 8:
@@ -397,6 +466,7 @@ func (e *racesim) Run(t *core.Tape, want bool) *core.Result {
 		wg.Add(1)
 		go func() {
 			defer wg.Done()
+			tk.setGID(curGoroutineID())
 			tk.bt.wait() // wait to be scheduled for the first time
 			tk.rt = goja.New()
 			tk.out, tk.errs = runRaceScript(tk.rt, prg, shared, times, mailbox, tk.id)
@@ -460,6 +530,10 @@ func (e *racesim) Run(t *core.Tape, want bool) *core.Result {
 
 	res.Steps = sched.ticks
 	res.Count("goroutine-switches", int64(sched.switches))
+	if syncPointsBuilt {
+		res.Count("lock-acquisition-scheduling-points", sched.syncPts)
+		res.Count("goroutine-switches-at-lock-acquisitions", sched.syncSw)
+	}
 	res.Count("tasks", int64(ntasks))
 	res.Count("values-published-through-mailbox", int64(len(mailbox.box)))
 	for _, sp := range specs {
@@ -519,7 +593,7 @@ func init() {
 		Real: append(append([]string{}, realComponents...), "Go race detector", "real goroutines, one Runtime each"),
 		Stub: []string{"goroutine scheduling order and slice lengths (tape-chosen; hand-off by raw pipe syscalls without happens-before edges)", "Math.random / Date not used"},
 		Assumptions: []string{
-			"interleaving granularity is the VM instruction; an instruction's Go code runs atomically (enough for happens-before based detection, which needs both accesses to occur, not to overlap)",
+			"interleaving granularity is the VM instruction plus every lock acquisition in goja code (instrumented build made by cmd/lockyield: a yield before each x.Lock()/x.RLock(), never taken while the goroutine holds a lock); between those points an instruction's Go code runs atomically (enough for happens-before based detection, which needs both accesses to occur, not to overlap, and for check-then-act sequences split across two critical sections)",
 			"the race detector keeps a bounded access history per 8-byte word; a clean batch is evidence, not proof",
 			"shared values are published to the goroutines by the go statement (creation edge), as user code would",
 		},
